@@ -583,6 +583,15 @@ theorem ws_self_close_classified (mode : Mode) (accept : Bytes) (st : Coap.M.Ws.
        (st'.allHdrIn = true ∧ st'.dataSize > 1472 ∧ r = (false, st', av', if av'.length = 0 then 0 else 5))) :=
   selfClose_cases mode accept st chunk r h
 
+/-- the hypothesis of `ws_read_closed_cases` in each class (the call closes the session by itself): Close frame, Ping,
+1473-byte frame at a client; unmasked frame at a server — and the fuel bound of `ws_read_next_frame_terminates` on the
+model's own fuel for a full `rd_header` -/
+example : (readFrame .client 1472 20 { up := true } [0x88, 0]).1 = .closed ∧ (readFrame .client 1472 20 { up := true } [0x89, 0]).1 = .closed ∧
+    (readFrame .client 1472 20 { up := true } [0x82, 0x7e, 5, 0xc1]).1 = .closed ∧
+    (readFrame .server 1472 20 { up := true } [0x82, 0]).1 = .closed := by decide +kernel
+example : ({ up := true, rdHeader := List.replicate 14 0 } : Coap.M.Ws.St).rdHeader.length + [1, 2, 3].length < [1, 2, 3].length + fsCap + 2 := by
+  decide
+
 /-- the three classes on concrete chunks (client side, handshake done): Close frame in front of an empty frame —
 `recv_close`, no drain, 2 bytes never read; a Ping followed by a Close frame in the same header read — refused, the
 Close frame is never looked at, nothing left on the socket, no call; a 1473-byte frame header with 20 more bytes —
